@@ -242,3 +242,120 @@ def h_fault_schedule(ts: int, tn: bool, di: int, fi: int, pt: bool, ki: int) -> 
 
 NDOC = tier(2, 4)
 NKIND = tier(2, 5)
+
+
+# ------------------------------------------------------------------ K08b: an attribute documented by a field of its class's docstring
+from pydoctor.epydoc.markup import Field as _Field
+
+
+class StubParsedS(StubParsed):
+    """a ParsedDocstring that provides its own summary (get_summary is part of the ParsedDocstring interface); the summary's to_stan
+    follows the same failure schedule"""
+
+    def get_summary(self):
+        return StubParsed(self.doc, self.beh, self.calls)
+
+
+class OkParsed(ParsedDocstring):
+    """the class's own docstring: renders fine; carries one @ivar field whose body misbehaves per schedule"""
+
+    def __init__(self, text, fields):
+        super().__init__(fields=fields)
+        self.text = text
+
+    @property
+    def has_body(self):
+        return True
+
+    def to_stan(self, linker):
+        return tags.p(self.text)
+
+    def to_node(self):
+        from pydoctor.epydoc.docutils import new_document
+        from docutils import nodes
+        d = new_document("x")
+        d += nodes.paragraph("", self.text)
+        return d
+
+
+def check_splitfield(ts, when, fmt, order, own_summary):
+    opts = copy.copy(OPTS)
+    opts.docformat = fmt
+    s = model.System(opts)
+    msgs = []
+    s.msg = lambda section, m, thresh=0, **kw: msgs.append((section, m, thresh))
+    calls = {"to_stan": 0}
+    beh = {"parse": "ok", "to_stan": ts, "to_node": False, "when": when}
+    CLS_TEXT = "Class summary stays."
+
+    def parser(d, errs):
+        if d == "CLASSDOC":
+            return OkParsed(CLS_TEXT, [_Field("ivar", "x", (StubParsedS if own_summary else StubParsed)("field body text", beh, calls), 1)])
+        return plaintext.parse_docstring(d, errs)
+
+    old = epydoc2stan.get_parser_by_name
+    epydoc2stan.get_parser_by_name = lambda fmt_, obj=None: parser
+    try:
+        b = s.systemBuilder(s)
+        b.addModuleString("class K:\n    '''CLASSDOC'''\n    def __init__(self):\n        self.x = 1\ndef g():\n    '''fine'''\n", "m")
+        b.buildModules()
+        K, x, g = s.allobjects["m.K"], s.allobjects["m.K.x"], s.allobjects["m.g"]
+        out = {}
+        try:
+            for what in order:
+                if what == "xs":
+                    out["xs"] = flatten(epydoc2stan.format_summary(x))
+                elif what == "xd":
+                    out["xd"] = flatten(epydoc2stan.format_docstring(x))
+                elif what == "ks":
+                    out["ks"] = flatten(epydoc2stan.format_summary(K))
+                elif what == "kd":
+                    out["kd"] = flatten(epydoc2stan.format_docstring(K))
+            out["gs"] = flatten(epydoc2stan.format_summary(g))
+        except Exception as e:
+            note(why="exception leaves the format_* wrappers (split-field attribute)", exc=repr(e), to_stan=str(EXC[ts]), when=when, order=order)
+            return False
+    finally:
+        epydoc2stan.get_parser_by_name = old
+    ctx = dict(to_stan=getattr(EXC[ts], "__name__", str(EXC[ts])), when=when, order=order, docformat=fmt, summary_provided_by_the_parsed_docstring=own_summary)
+    if CLS_TEXT not in visible_text(out["ks"]) or CLS_TEXT not in visible_text(out["kd"]):
+        note(why="a failure while rendering an attribute's field body changed the documentation of ANOTHER object (its class)", class_summary=visible_text(out["ks"]), class_doc=visible_text(out["kd"])[:200], **ctx)
+        return False
+    if "fine" not in out["gs"]:
+        note(why="bystander function affected", **ctx)
+        return False
+    if ts == 0 and ("field body text" not in visible_text(out["xs"]) or "field body text" not in visible_text(out["xd"])):
+        note(why="healthy field body not shown", **ctx)
+        return False
+    # a failure met only while rendering the SUMMARY is deliberately left to the body's rendering to report (report=False in
+    # format_summary); a renderer that fails on the summary of a text and not on the text itself is an artefact of the schedule
+    if ts != 0 and when == "always" and "xd" in order and not any(m[2] < 0 for m in msgs):
+        note(why="failure of a field body not reported", msgs=msgs, **ctx)
+        return False
+    return True
+
+
+import itertools as _it
+SF_ORDERS = [list(p) for p in _it.permutations(["xs", "xd", "ks", "kd"])]
+
+
+@harness(
+    parts=lambda: [[o, w] for o in range(2) for w in range(3)], timeout=(240, 900), cls="F", tracing="concrete-after-choice", twin="first",
+    code=["pydoctor.epydoc2stan.extract_fields", "ensure_parsed_docstring (split field: source = parent)", "_get_parsed_summary", "format_summary", "format_summary_fallback", "safe_to_stan", "format_docstring"],
+    bounds={"quick": "class whose docstring documents attribute x through an @ivar field; the field body's to_stan - and, when the parsed docstring provides its own summary, the summary's - raises one of 11 exception classes (or succeeds), always / on the first call / on the second call; summary and body of the attribute and of the class "
+                     "produced in each of the 24 orders; 5 docformats", "thorough": "same"},
+    stubs=["epydoc2stan.get_parser_by_name returns a stub parser: the class docstring parses to a healthy ParsedDocstring with one ivar field whose body raises per schedule"],
+    outside="fields other than ivar; the real parsers",
+)
+def h_splitfield_faults(ts: int, fi: int, oi: int) -> bool:
+    """
+    pre: 0 <= ts < NEXC and 0 <= fi <= 4 and 0 <= oi < 24
+    post: _
+    """
+    own, wi = PART if PART is not None else [1, 0]
+    ts = pick(ts, 0, NEXC - 1)
+    fi = pick(fi, 0, 4)
+    oi = pick(oi, 0, 23)
+    with NoTracing():
+        ok = check_splitfield(ts, WHEN[wi], FORMATS[fi], SF_ORDERS[oi], bool(own))
+    return done(ok)
